@@ -47,7 +47,9 @@ def split_by_reset(path, parts, sc):
 def validate(sc, R, files, module, cfg, what, parts):
     fs = []
     for f in files:
-        fs += split_by_reset(f, parts, sc)
+        n = sum(1 for _ in open(f))
+        # long files are split by verifylib itself (>= 2000 lines); shorter ones here, so that no part is split twice
+        fs += [f] if n >= 2000 * parts else split_by_reset(f, min(parts, max(1, n // 150)), sc)
     val = V.validate_traces(sc, MOD, module, cfg, fs, parallel=parts, timeout=1500)
     R.states += val["states"]
     R.handle_validation(val, what)
@@ -70,11 +72,12 @@ def run(sc, tier, seed):
     for cfg in cfgs:
         R.add_model(V.model_check(sc, MOD, "UDFProtoMC.tla", cfg, workers=8, timeout=1500))
     # the code before the fixes, as observations: the same model with the switches off must show the defects
-    V.model_check(sc, MOD, "UDFProtoMC.tla", "UDFProto_orig.cfg", workers=2, timeout=300, expect_violation={"NoProcessCrash"})
-    V.model_check(sc, MOD, "UDFProtoMC.tla", "UDFProto_origbad.cfg", workers=2, timeout=300, expect_violation={"NoProcessCrash"})
-    V.model_check(sc, MOD, "UDFProtoMC.tla", "UDFProto_hang.cfg", workers=2, timeout=300, expect_violation={"Deadlock reached"})
+    for cfg, exp in (("UDFProto_orig.cfg", "NoProcessCrash"), ("UDFProto_origbad.cfg", "NoProcessCrash"), ("UDFProto_hang.cfg", "Deadlock reached")):
+        res = V.model_check(sc, MOD, "UDFProtoMC.tla", cfg, workers=2, timeout=300, expect_violation={exp})
+        if res["violated"] != exp:
+            raise V.Broken("model %s no longer shows the defect it is there to show (%s): the fault alphabet of the configuration is dead" % (cfg, exp))
 
-    parts = 12
+    parts = 8
     # ---- B1, byte level: real WriteMessage/ReadMessage under every split ----
     out, meta = V.run_driver(sc, "c19frame", tier, seed)
     R.add_meta(meta)
